@@ -72,6 +72,10 @@ def sym_param(c: Ctx, name: str, rank: int, tag: Any, depth: Any) -> STensor:
         elif depth == "sym":
             d = c.dim(f"{name}_depth", 1, 1024, sample=7)
             p.mup_scaling_depth = SDepth(d, 7)  # type: ignore[attr-defined]
+        elif depth == "one":
+            # the boundary depth as a plain Python int: a symbolic depth is an int *subclass*, so a library test such as
+            # `type(d) is int` or `d > 1` at the edge is only exercised by a genuine int (1/sqrt(1) = 1: the factor is the undepthed one)
+            p.mup_scaling_depth = 1  # type: ignore[attr-defined]
         elif depth == "bad":
             p.mup_scaling_depth = "three"  # type: ignore[attr-defined]
     return p
@@ -99,7 +103,7 @@ def oracle_factor(p: STensor, kind: str) -> Any:
     d = p.mup_scaling_depth  # type: ignore[attr-defined]
     if d is not None:
         rd = c.fresh("sqrt_depth")
-        c.assumes += [rd > 0, rd * rd == _sreal(d.sym).z]
+        c.assumes += [rd > 0, rd * rd == _sreal(d.sym if hasattr(d, "sym") else int(d)).z]
         f = f / rd
     return f
 
@@ -125,15 +129,18 @@ def param_sets(tier: str) -> List[List[Tuple[int, str, str]]]:
     combos = [(r, t, d) for r in (1, 2, 3) for t in TAGS for d in ("none", "sym")]
     if th:
         return [combos[i:i + 3] for i in range(0, len(combos), 3)] + [[(2, "weight", "sym"), (1, "bias", "sym"), (2, "output", "none")],
-                                                                      [(3, "weight", "none"), (1, "norm", "sym")], [(1, "weight", "sym")]]
+                                                                      [(3, "weight", "none"), (1, "norm", "sym")], [(1, "weight", "sym")],
+                                                                      [(2, "weight", "one"), (1, "bias", "one"), (2, "output", "one")],
+                                                                      [(1, "norm", "one"), (3, "weight", "one"), (1, "weight", "one")]]
     return [[(2, "weight", "sym"), (1, "bias", "none"), (2, "output", "none")], [(3, "weight", "none"), (1, "norm", "sym"), (1, "weight", "none")],
-            [(2, "bias", "sym"), (3, "output", "sym"), (2, "norm", "none")], [(1, "output", "none"), (3, "bias", "none"), (3, "norm", "sym")]]
+            [(2, "bias", "sym"), (3, "output", "sym"), (2, "norm", "none")], [(1, "output", "none"), (3, "bias", "none"), (3, "norm", "sym")],
+            [(2, "weight", "one"), (1, "bias", "one"), (2, "output", "one")], [(1, "norm", "one"), (3, "weight", "one")]]
 
 
 def configs(tier: str) -> List[Dict[str, Any]]:
     th = tier == "thorough"
     out = []
-    structures = ["bare", "generator", "groups_own_lr", "groups_no_lr", "mixed", "plain_in_group"]
+    structures = ["bare", "generator", "groups_own_lr", "groups_generator", "groups_no_lr", "mixed", "plain_in_group"]
     apis = ["scaled_adam", "scaled_sgd_none", "scaled_sgd_out", "Adam", "AdamW", "SGD_none", "SGD_out"]
     psets = param_sets(tier)
     i = 0
@@ -150,7 +157,7 @@ def configs(tier: str) -> List[Dict[str, Any]]:
 
 
 def cfg_name(cfg: Dict[str, Any]) -> str:
-    ps = "+".join(f"{t}{r}{'d' if d == 'sym' else ''}" for r, t, d in cfg["params"])
+    ps = "+".join(f"{t}{r}{'d' if d == 'sym' else 'd1' if d == 'one' else ''}" for r, t, d in cfg["params"])
     return f"{cfg['api']}[{cfg['structure']},lr={cfg['lr']},iwd={cfg['independent_wd']},{ps}]"
 
 
@@ -215,6 +222,13 @@ def build(cfg: Dict[str, Any], mkparam: Callable[[str, int, str, str], Any], mkl
         groups = [g0, g1]
         arg = groups
         exp = [(ps[0], g0["lr"], g0["weight_decay"])] + [(p, g1["lr"], gwd) for p in ps[1:]]
+    elif st == "groups_generator":  # a one-shot iterator of groups that all carry their lr, and no global lr at all
+        g0 = {"params": ps[:1], "lr": mklr("lr0"), "weight_decay": mkwd("wd0"), "betas": (0.7, 0.9)}
+        g1 = {"params": tuple(ps[1:]), "lr": mklr("lr1"), "eps": 1e-6}
+        groups = [g0, g1]
+        arg = (g for g in groups)
+        exp = [(ps[0], g0["lr"], g0["weight_decay"])] + [(p, g1["lr"], gwd) for p in ps[1:]]
+        glr = None
     elif st == "groups_no_lr":
         g0 = {"params": ps[:2], "momentum": 0.9}
         g1 = {"params": ps[2:], "weight_decay": mkwd("wd1")}
@@ -316,7 +330,7 @@ def concrete_run(cfg: Dict[str, Any], model: Dict[str, Any], steps: int = 0) -> 
 
     def mkparam(name: str, r: int, t: str, d: str) -> Any:
         shape = tuple(min(int(model.get(f"{name}_d{i}", 2 + i)), 64) for i in range(r))
-        depth = int(model.get(f"{name}_depth", 7)) if d == "sym" else None
+        depth = int(model.get(f"{name}_depth", 7)) if d == "sym" else (1 if d == "one" else None)
         if t == "<missing>":
             return torch.nn.Parameter(torch.ones(shape, dtype=torch.float64))
         return uu.Parameter(torch.ones(shape, dtype=torch.float64), t, depth)
